@@ -1,0 +1,11 @@
+//go:build verif
+
+// Contracts for the 26-routing genesis import (comment-only; read by /verif's tibcvc).
+package routing
+
+//@ // ---- C16: InitGenesis stores exactly the genesis state's rule list (or panics on a malformed rule)
+//@ func InitGenesis(ctx, k, gs)
+//@   props C16
+//@   modifies tibc
+//@   ensures rules.imported: tibc[routingRules()] == some(jsonenc(gs.Rules))
+//@   ensures frame:          forall q: key :: q != routingRules() ==> tibc[q] == old(tibc)[q]
